@@ -172,7 +172,8 @@ def encode_acase(tr, max_legs=None):
 
 # ----------------------------------------------------------------------------------------------
 def run_history_check(ctx, prop, oracle_props, encoders, trusted, assumptions, explanation,
-                      jobs=None, max_legs=None, coq_legs=None, replay_jobs=None, static_obligations=None, prebuilt=False):
+                      jobs=None, max_legs=None, coq_legs=None, replay_jobs=None, static_obligations=None, prebuilt=False,
+                      extra_batches=()):
     """Common body of the history checks.
     encoders: list of (name, header, checker, case_type, encode(trace) -> term or None)."""
     if not prebuilt:
@@ -195,6 +196,8 @@ def run_history_check(ctx, prop, oracle_props, encoders, trusted, assumptions, e
             tr["overrides"] = pl.get("overrides")
     else:
         trs = run_traces(ctx, jobs, max_legs, seeds=(ctx.seed, ctx.seed + 1000) if ctx.tier == "thorough" else (ctx.seed,))
+        for (xjobs, xlegs, xseeds) in extra_batches:
+            trs += run_traces(ctx, xjobs, xlegs, seeds=xseeds)
     import time as _time
     t_traced = _time.time()
     ctx.notes.append("tracing took %.1fs" % (t_traced - ctx.t0))
